@@ -27,6 +27,8 @@ def run(ctx, R, tier):
     c06.sib(F, R)
     c06.prev(F, R)
     c06.set_unconditional(F, R, rule='B.C17.set')
+    from ..enginea import run_singular_only
+    run_singular_only(R, F, lambda fn: 'value::Mapping' in fn or 'modulator::' in fn, floor=3)
 
 
 def once(F, R):
@@ -89,11 +91,60 @@ def mapping(F, R):
         elif not di.startswith('tween::Easing::apply('):
             ok = False
             why = 'the interpolation amount is %s, not the eased amount' % di
-        d0 = describe(b, cl[0][1]['args'][0], depth=6, at=cl[0][0])
-        if not (d0.startswith('Div(Sub(input, ') and 'input_range' in d0):
+        bad = amount_defs(b, cl[0])
+        if bad:
             ok = False
-            why = 'the amount is %s, not (input - in.0) / (in.1 - in.0)' % d0
+            why = 'the amount is %s, not (input - in.0) / (in.1 - in.0)' % bad
     R.check(ok, 'B.C17.map', 'Mapping::map', why, detail='clamp(0,1) ≺ Easing::apply ≺ interpolate, each fed by the previous', where=b.file)
+
+
+def amount_defs(b, clamp_call):
+    """Every definition of the value that is clamped is the normalised input `(input - in.0) / (in.1 - in.0)`; where the
+    input range is empty (a branch on `in.1 - in.0 == 0.0`) a literal 0.0 / 1.0 step may stand in for the quotient, which
+    would be 0/0 there.  -> None, or the description of the offending definition."""
+    from ..facts import op_local
+    from ..paths import describe_rv, parse_term
+    from ..nonfinite import dominating_decisions
+    bb, t = clamp_call
+    SPAN = 'Sub((*self).input_range.1, (*self).input_range.0)'.replace('(*self)', 'self')
+
+    def norm(x):
+        return x.replace('(*self)', 'self')
+    l = op_local(t['args'][0])
+    ds = b.defs().get(l, []) if l is not None else []
+    for _ in range(3):
+        # through plain copies to the (re-assigned) variable itself
+        if len(ds) == 1 and ds[0][0] == 'stmt' and ds[0][3]['rv']['k'] == 'use' and op_local(ds[0][3]['rv']['op']) is not None \
+                and len(b.defs().get(op_local(ds[0][3]['rv']['op']), [])) > 1:
+            l = op_local(ds[0][3]['rv']['op'])
+            ds = b.defs()[l]
+    after = b.reach_after(bb)
+    ds = [d for d in ds if d[1] not in after and d[1] != bb and bb in b.reach_after(d[1])] if len(ds) > 1 else ds
+    if len(ds) <= 1:
+        d0 = norm(describe(b, t['args'][0], depth=6, at=bb))
+        return None if d0 == 'Div(Sub(input, self.input_range.0), %s)' % SPAN else d0
+    seen_div = False
+    for d in ds:
+        if d[0] != 'stmt':
+            return 'the result of a call'
+        dd = norm(describe_rv(b, d[3]['rv'], depth=6, at=d[1]))
+        if dd == 'Div(Sub(input, self.input_range.0), %s)' % SPAN:
+            seen_div = True
+            continue
+        if dd in ('0.0', '1.0'):
+            dec = dominating_decisions(b, d[1])
+            empty = False
+            for _, desc, lab in dec:
+                nm, ar = parse_term(norm(desc))
+                if nm == 'Eq' and ar and SPAN in ar and ('0.0' in ar or '-0.0' in ar) and lab == 'otherwise':
+                    empty = True
+                if nm == 'Ne' and ar and SPAN in ar and ('0.0' in ar or '-0.0' in ar) and lab == '0':
+                    empty = True
+            if empty:
+                continue
+            return '%s outside the empty-range case' % dd
+        return dd
+    return None if seen_div else 'never the quotient'
 
 
 def hold(F, R):
